@@ -2,7 +2,7 @@
    bool, option, unit, list, prod, sumbool, comparison map to OCaml's; nat, string, ascii stay
    the extracted inductive types.  No Extract Constant. *)
 From Coq Require Import Extraction ExtrOcamlBasic.
-From PyHam Require Import Tax Ortho Loader Mapper Profile Nav Preds Export Filter Lookup Session Oma SpellCheck.
+From PyHam Require Import Tax Ortho Loader Mapper Profile Nav Preds Export Filter Lookup Session Oma SpellCheck Page.
 Extraction Language OCaml.
 Extraction "../driver/model.ml" build_taxonomy load vertical lateral hogmap upmap profile_full profile_hog
   lat_loss lat_gain lat_retained lat_dup
@@ -10,4 +10,4 @@ Extraction "../driver/model.ml" build_taxonomy load vertical lateral hogmap upma
   write8 annot_depth path_up all_nodes search lcs genome_refs
   wfb wf_node export_doc load_filtered pass1
   get_genes_by_external_id get_taxon_by_name get_gene_by_id singles_of
-  srun sinit sstep load_oma consistentb.
+  srun sinit sstep load_oma consistentb iham_page.
